@@ -163,12 +163,20 @@ func (x *Exec) load(n *node, ptr Value, ty types.Type, pos token.Pos) Value {
 		return x.loadField(st, "Cell", typeName(ty), ty, p.T, n.guard)
 	case LocV:
 		switch p.Kind {
+		case "box":
+			x.nilCheck(n, p.Obj, pos, "*")
+			return x.loadField(st, "Cell", typeName(ty), ty, p.Obj, n.guard)
 		case "field":
 			return x.loadField(st, p.Outer, fieldPathName(p.ST, p.Path), ty, p.Obj, n.guard)
 		case "elem":
 			return x.loadElem(st, ty, p.Obj, p.Idx, n.guard)
 		case "cell":
 			if v, ok := st.Cells[p.Cell]; ok {
+				if sl, ok := v.(SliceV); ok && !sl.Str && isString(ty) {
+					// unsafe reinterpretation of a slice header as a string header
+					x.VC.Assumptions["unsafe cast *(*string)(unsafe.Pointer(&b)): the string shares the backing array of b (hslam/code.DecodeString)"] = true
+					return SliceV{Arr: sl.Arr, Off: sl.Off, Len: sl.Len, Ty: ty, Str: true}
+				}
 				return v
 			}
 			v := x.zeroValue(ty)
@@ -215,6 +223,10 @@ func (x *Exec) store(n *node, ptr Value, val Value, ty types.Type, pos token.Pos
 		return
 	case LocV:
 		switch p.Kind {
+		case "box":
+			x.nilCheck(n, p.Obj, pos, "*")
+			x.storeField(st, "Cell", typeName(ty), ty, p.Obj, val)
+			return
 		case "field":
 			if !x.storeField(st, p.Outer, fieldPathName(p.ST, p.Path), ty, p.Obj, val) {
 				x.VC.Warnf("store of unsupported value %T into %s.%s: field havocked", val, p.Outer, fieldPathName(p.ST, p.Path))
@@ -453,6 +465,9 @@ func retype(v Value, t types.Type) Value {
 	case ClosureV:
 		vv.Ty = t
 		return vv
+	case LocV:
+		vv.Ty = t
+		return vv
 	}
 	return v
 }
@@ -571,6 +586,9 @@ func (x *Exec) sliceOp(n *node, i *ssa.Slice, base Value, ins *ssa.Slice) Value 
 	r := SliceV{Arr: b.Arr, Ty: i.Type(), Str: b.Str}
 	r.Off = x.VC.Def(i.Name()+".off", BVBin("bvadd", b.Off, lo))
 	r.Len = x.VC.Def(i.Name()+".len", BVBin("bvsub", hi, lo))
+	// derived facts (consequences of the definitions; stated to spare the solver the bit-level derivation)
+	x.VC.Assume(n.guard, Eq(BVBin("bvadd", r.Off, r.Len), BVBin("bvadd", b.Off, hi)), "slice-end")
+	x.VC.Assume(n.guard, And(BVCmp("bvule", b.Off, r.Off), BVCmp("bvule", r.Len, limit), BVCmp("bvsle", BVLit(0, 64), r.Len)), "slice-range")
 	if !b.Str {
 		if mx != nil {
 			r.Cap = x.VC.Def(i.Name()+".cap", BVBin("bvsub", mx, lo))
@@ -597,10 +615,7 @@ func (x *Exec) makeSlice(n *node, i *ssa.MakeSlice, lenv, capv Value) Value {
 	elem := i.Type().Underlying().(*types.Slice).Elem()
 	// zero contents
 	for _, c := range shapeComps(elem) {
-		key := elemKey(elem) + c.Suffix
-		h := x.heap(st, key, Arr(IntS, Arr(bv64, c.S)))
-		zarr := x.zeroArray(c.S)
-		x.setHeap(st, key, x.VC.Def("H.elem"+c.Suffix, Store(h, r, zarr)), r)
+		x.objSet(st, elemKey(elem)+c.Suffix, r, x.zeroArray(c.S))
 	}
 	return SliceV{Arr: r, Off: zero, Len: ln, Cap: cp, Ty: i.Type()}
 }
@@ -838,19 +853,32 @@ func (x *Exec) strConcat(n *node, a, b SliceV, ty types.Type) Value {
 	res := SliceV{Arr: r, Off: BVLit(0, 64), Len: ln, Ty: ty, Str: true}
 	// contents: copy facts
 	key := elemKey(types.Typ[types.Uint8])
-	h := x.heap(st, key, Arr(IntS, Arr(bv64, BV(8))))
-	na := x.VC.Fresh("concat.bytes", Arr(bv64, BV(8)))
+	bs := Arr(bv64, BV(8))
+	na := x.VC.Fresh("concat.bytes", bs)
 	k := x.VC.Fresh("k", bv64)
-	srcA := Select(Select(h, a.Arr), BVBin("bvadd", a.Off, k))
-	srcB := Select(Select(h, b.Arr), BVBin("bvadd", b.Off, BVBin("bvsub", k, a.Len)))
+	srcA := Select(x.objGet(st, key, bs, a.Arr), BVBin("bvadd", a.Off, k))
+	srcB := Select(x.objGet(st, key, bs, b.Arr), BVBin("bvadd", b.Off, BVBin("bvsub", k, a.Len)))
 	body := Eq(Select(na, k), Ite(BVCmp("bvult", k, a.Len), srcA, Ite(BVCmp("bvult", k, ln), srcB, BVLit(0, 8))))
 	x.VC.AssumeForall([]*Term{k}, n.guard, body, "concat")
-	x.setHeap(st, key, x.VC.Def("H.elem", Store(h, r, na)), r)
+	x.objSet(st, key, r, na)
 	return res
+}
+
+func isPtrLike(t types.Type) bool {
+	switch u := t.Underlying().(type) {
+	case *types.Pointer:
+		return true
+	case *types.Basic:
+		return u.Kind() == types.UnsafePointer
+	}
+	return false
 }
 
 func (x *Exec) convert(n *node, v Value, from, to types.Type, name string) Value {
 	st := n.st
+	if isPtrLike(from) && isPtrLike(to) {
+		return retype(v, to)
+	}
 	if s, ok := v.(Scalar); ok {
 		ts := scalarSort(to)
 		if ts == nil {
@@ -894,12 +922,12 @@ func (x *Exec) convert(n *node, v Value, from, to types.Type, name string) Value
 		if (sl.Str && toSlice) || (!sl.Str && isString(to)) {
 			r := x.alloc(st, "conv")
 			key := elemKey(types.Typ[types.Uint8])
-			h := x.heap(st, key, Arr(IntS, Arr(bv64, BV(8))))
-			na := x.VC.Fresh("conv.bytes", Arr(bv64, BV(8)))
+			bs := Arr(bv64, BV(8))
+			na := x.VC.Fresh("conv.bytes", bs)
 			k := x.VC.Fresh("k", bv64)
-			body := Eq(Select(na, k), Ite(BVCmp("bvult", k, sl.Len), Select(Select(h, sl.Arr), BVBin("bvadd", sl.Off, k)), BVLit(0, 8)))
+			body := Eq(Select(na, k), Ite(BVCmp("bvult", k, sl.Len), Select(x.objGet(st, key, bs, sl.Arr), BVBin("bvadd", sl.Off, k)), BVLit(0, 8)))
 			x.VC.AssumeForall([]*Term{k}, n.guard, body, "conv-copy")
-			x.setHeap(st, key, x.VC.Def("H.elem", Store(h, r, na)), r)
+			x.objSet(st, key, r, na)
 			res := SliceV{Arr: r, Off: BVLit(0, 64), Len: sl.Len, Ty: to, Str: isString(to)}
 			if !res.Str {
 				res.Cap = sl.Len
